@@ -316,7 +316,12 @@ func c06(e *Env) {
 	}
 	for _, f := range []*ssa.Function{acq, rel} {
 		for _, c := range p.Callers(f) {
-			if !p.IsRepo(c) {
+			if !p.IsRepo(c) || c.Synthetic != "" {
+				continue
+			}
+			// an exported wrapper (the public Inc/DecConcurrentTasks API kept for custom components) that is itself
+			// only a pass-through is not a second user inside the library
+			if c.Object() != nil && c.Object().Exported() && len(p.Callers(c)) == 0 {
 				continue
 			}
 			obWho.Check(inTree[c], e.where(c.Blocks[0].Instrs[0]), core.FuncName(f)+" called from "+core.FuncName(c)+" (in Task.Execute's call tree)", core.FuncName(f)+" is also called from "+core.FuncName(c)+", outside Task.Execute's call tree")
